@@ -225,7 +225,9 @@ def null_mean_sites(idx):
     for mname in nnm.registry(idx)["estim"] + nnm.registry(idx)["bet"]:
         fd = idx.func(REL, f"NonnegMean.{mname}")
         t3 = nnm.make_tx(idx)
+        t3.skip_calls = True
         for st in nnm.flatten(fd.body):
+            cands = []
             if isinstance(st, ast.Assign) and len(st.targets) == 1 and isinstance(st.targets[0], ast.Name):
                 try:
                     v = t3.expr(st.value)
@@ -235,6 +237,21 @@ def null_mean_sites(idx):
                 # a direct recomputation (not a call of sjm, which is site 1)
                 if any(isinstance(c, ast.Call) and norm(c.func) == "self.sjm" for c in ast.walk(st.value)):
                     continue
+                cands.append(v)
+            elif isinstance(st, ast.If) and not all(isinstance(x, ast.Raise) for x in st.body):
+                # the same selection written as an if/else statement: the names it (re)binds
+                before = dict(t3.env)
+                try:
+                    if t3.block([st]) is not None:
+                        continue
+                except symx.Unsupported:
+                    continue
+                if any(isinstance(c, ast.Call) and norm(c.func) == "self.sjm" for c in ast.walk(st)):
+                    continue
+                for k, v in t3.env.items():
+                    if before.get(k) is not v and isinstance(v, I):
+                        cands.append(v)
+            for v in cands:
                 pv = symx.prune(v)
                 if FIN in val_atoms(pv):
                     leaf = eval_val(pv, {a: True for a in val_atoms(pv)})
